@@ -75,7 +75,7 @@ type stubVM struct {
 }
 
 func (v *stubVM) GetChainID(no types.BlockNo) *types.ChainID { return v.ca.ChainID(no) }
-func (v *stubVM) GetBestChainID() *types.ChainID            { return v.ca.ChainID(v.ca.best.Header.BlockNo) }
+func (v *stubVM) GetBestChainID() *types.ChainID             { return v.ca.ChainID(v.ca.best.Header.BlockNo) }
 
 type stubIS struct {
 	p2pcommon.InternalService
@@ -83,11 +83,11 @@ type stubIS struct {
 	ca   *stubChain
 }
 
-func (s *stubIS) SelfMeta() p2pcommon.PeerMeta                       { return s.meta }
-func (s *stubIS) SelfNodeID() types.PeerID                           { return s.meta.ID }
-func (s *stubIS) GetChainAccessor() types.ChainAccessor              { return s.ca }
-func (s *stubIS) CertificateManager() p2pcommon.CertificateManager   { return nil }
-func (s *stubIS) PeerManager() p2pcommon.PeerManager                 { return nil }
+func (s *stubIS) SelfMeta() p2pcommon.PeerMeta                     { return s.meta }
+func (s *stubIS) SelfNodeID() types.PeerID                         { return s.meta.ID }
+func (s *stubIS) GetChainAccessor() types.ChainAccessor            { return s.ca }
+func (s *stubIS) CertificateManager() p2pcommon.CertificateManager { return nil }
+func (s *stubIS) PeerManager() p2pcommon.PeerManager               { return nil }
 
 type stubPM struct {
 	p2pcommon.PeerManager
@@ -176,7 +176,7 @@ type scriptConn struct {
 	wr bytes.Buffer
 }
 
-func newScriptConn(preload []byte) *scriptConn { return &scriptConn{rd: bytes.NewReader(preload)} }
+func newScriptConn(preload []byte) *scriptConn    { return &scriptConn{rd: bytes.NewReader(preload)} }
 func (s *scriptConn) Read(p []byte) (int, error)  { return s.rd.Read(p) }
 func (s *scriptConn) Write(p []byte) (int, error) { return s.wr.Write(p) }
 func (s *scriptConn) Close() error                { return nil }
